@@ -290,12 +290,65 @@ def run(tier, seed):
         if name.startswith("invalid") and (wrote or so.strip()):
             chk.spec_violations.append({"stream": "cli-contract", "case": name, "stats_file_written": wrote, "stdout": so.decode("utf8", "replace")[:200],
                                         "what": "output written although the option combination is invalid"})
+    # ---- the modes that print no report (views; filtered data to stdout): the exit status still follows what was collected
+    import json as _json
+    rj = []
+    for s in range(ninputs):
+        jb = next((j for j in jobs if j["s"] == s), None)
+        if jb is None or jb["kind"] in ("non-alice",):
+            continue
+        data = jb["data"]
+        variants = [("as-is", data)]
+        if len(data) > 200:
+            variants.append(("cut-in-last-payload", data[:len(data) - rng.randrange(1, 9)]))
+        for vname, d in variants:
+            for mode in (["view", "rdh"], ["view", "its-readout-frames"], ["view", "its-readout-frames-data"], ["-f", str(d[12])], ["-f", str(d[12]), "-o", "OUTFILE"],
+                         ["view", "rdh", "-c", "TOML"]):
+                if not deep and rng.random() < 0.5:
+                    continue
+                rj.append({"s": s, "kind": jb["kind"] + "/" + vname, "data": d, "mode": mode, "ee": rng.choice([3, 57, 255]), "inp": rng.choice(["file", "pipe"]), "id": len(rj)})
+
+    def rwork(x):
+        ip = os.path.join(tmp, "r%d.raw" % x["id"])
+        open(ip, "wb").write(x["data"])
+        sp = os.path.join(tmp, "r%d.json" % x["id"])
+        toml = os.path.join(tmp, "r%d.toml" % x["id"])
+        open(toml, "w").write("cdps = %d\n" % 1000003)          # a custom check that cannot hold
+        args = [a if a != "OUTFILE" else os.path.join(tmp, "r%d.out" % x["id"]) for a in x["mode"]]
+        args = [a if a != "TOML" else toml for a in args] + ["-E", str(x["ee"]), "-S", sp, "-D", "json"]
+        if x["inp"] == "file":
+            rc, so, se, _ = core.run_cli([ip] + args, timeout=60)
+        else:
+            rc, so, se, _ = core.run_cli(args, stdin_bytes=x["data"], timeout=60)
+        st = None
+        if os.path.exists(sp):
+            try:
+                st = _json.load(open(sp))
+            except Exception:
+                st = None
+        return rc, se.decode("utf8", "replace"), st
+    for x, (rc, se, st) in zip(rj, core.par_map(rwork, rj)):
+        if "panicked at" in se or not isinstance(rc, int) or rc < 0 or "Init processing failed" in se or st is None:
+            continue
+        es = st.get("error_stats", {})
+        nerr = es.get("total_errors", 0) or 0
+        fatal = es.get("fatal_error") is not None
+        want = x["ee"] if (nerr > 0 or fatal) else 0
+        distinct.add(("report-less", " ".join(a for a in x["mode"] if not a.isdigit())[:24], x["kind"].split("/")[1], nerr > 0, fatal))
+        if rc != want:
+            chk.spec_violations.append({"stream": "cli-contract", "mode": " ".join(x["mode"]) + " -E %d" % x["ee"], "input": x["inp"], "input_kind": x["kind"],
+                                        "input_hex": x["data"].hex().upper() if len(x["data"]) <= 3000 else "(stream %d of seed %d, %s)" % (x["s"], seed, x["kind"]),
+                                        "collected_total_errors": nerr, "collected_fatal": fatal, "exit": rc, "expected_exit": want,
+                                        "what": "exit status is not the configured any-errors status although an error / fatal error was collected "
+                                                "(or is not 0 although none was), in a mode that prints no report"})
     shutil.rmtree(tmp, ignore_errors=True)
-    chk.add_stream("cli-contract", len(jobs) + len(sj), distinct, samples, distribution={"inputs": ninputs, "runs": len(jobs), "special_cases": len(sj)})
+    chk.add_stream("cli-contract", len(jobs) + len(sj) + len(rj), distinct, samples, distribution={"inputs": ninputs, "runs": len(jobs), "special_cases": len(sj), "report_less_runs": len(rj)})
     chk.cov["rule"] = ("inputs: clean / corrupted (k errors) / mid-stream fatal offset / unknown system id / non-ALICE bytes; options: -E n, -m, "
                        "-w code lists incl. prefixes of each other (1,10,100,4,44,444), -e around small counts, custom checks cdps / triggers_pht "
                        "at truth and truth+-1; file and pipe; plus missing file, empty and short input and every invalid option combination. "
                        "Checked: exit status vs the decision table, total == shown without display options, mute / cap / filter semantics "
                        "(incl. nothing listed is lost vs the unfiltered run), no output before rejection; whole-run model vs binary where the "
-                       "run is deterministic. distinct = class tuples")
+                       "run is deterministic; the three views, filtered data to stdout / to a file and a view with a failing custom check, each with -E n on the inputs "
+                       "as they are and cut inside the last payload: exit status n iff the statistics written by the run count an error or a fatal error. "
+                       "distinct = class tuples")
     return core.finish(chk, TRUSTED)
